@@ -386,20 +386,12 @@ def addStar (imps : List (String × ImportVal)) (path : List String) : List (Str
       (p.1, match p.2 with | .star ps => .star (ps ++ [path]) | .short ps n => .short (ps ++ [path]) n | v => v) else p
   else imps ++ [("*", .star [path])]
 
-/-- The names `exitImport_clause` takes from `import P.{a, b, c}`: `import_list.children[::2]`.  The
-    rule `import_list : IDENT (',' import_list)*` is right-recursive, so the children are the first
-    IDENT and the *nested* list, whose text `"b,c"` is used as one name (finding C04-F4). -/
-def importListNames : List String → List String
-  | [] => []
-  | [a] => [a]
-  | a :: rest => [a, ",".intercalate rest]
-
 /-- `exitImport_clause`. -/
 def addImport (imps : List (String × ImportVal)) : ImpSrc → Except Err (List (String × ImportVal))
   | .qual path => addRefs imps path.dropLast (match path.getLast? with | some n => [n] | none => [])
   | .short name path => .ok (dictSetKV imps name (.short [path] name))
   | .star path => .ok (addStar imps path)
-  | .list path names => addRefs imps path (importListNames names)
+  | .list path names => addRefs imps path names
 
 def Frame.addExt (f : Frame) (path args : List String) : Frame :=
   { f with info := { f.info with extends_ := f.info.extends_ ++ [⟨path, args, .priv, f.closed.length⟩] } }
